@@ -121,7 +121,26 @@ def _forwarding_by_interpretation(repo: Repo, qual: str, fn: ast.FunctionDef, bo
     if kind == "call":
         if out is not result or not all(a is me or a is other for a in payload) or len(payload) != 1 + n_free:
             return None
-        return name, tuple("self" if a is me else "other" for a in payload)
+        roles = tuple("self" if a is me else "other" for a in payload)
+        if n_free == 1:
+            # a foreign operand is handed on as it is, whatever its value: the same single call for plain numbers
+            for number in (5, 0, 0.0, -1, 1):
+                del events[:]
+                it2 = Interp(repo, {}, {}, algebra=alg, max_steps=4000)
+                it2.instance_classes[cname] = qual
+                try:
+                    out2 = it2.call_function(fn, [me] + list(bound_args) + [number], dict(bound_kwargs or {}), {}, qual.split(".")[0])
+                except (NoValue, Raised, RecursionError):
+                    out2 = None
+                ok = out2 is result and len(events) == 1 and events[0][:2] == ("call", name) and len(events[0][2]) == 2 and \
+                    all((a is me) if r == "self" else (type(a) is type(number) and a == number) for a, r in zip(events[0][2], roles))
+                if not ok:
+                    got = [(e[0], e[1], tuple("self" if a is me else repr(a) for a in e[2]) if e[0] == "call" else e[2]) for e in events]
+                    repo.__dict__.setdefault("_surface_anomalies", {})[qual + "." + fn.name] = \
+                        (f"with a multivector operand it is one call {name}({', '.join(roles)}), with the plain number {number!r} "
+                         f"it does {got if got else 'no operator call'}: what reaches the operator depends on the value of the operand")
+                    return None
+        return name, roles
     key = payload if isinstance(payload, tuple) else (payload,)
     if not (isinstance(out, Obj) and out.kind == cname) or len(key) != 1 + n_free:
         return None
